@@ -24,7 +24,9 @@ RULE = ("probe stream (60%): random feature files (languagesystems, class/anchor
         "case's writers, for featureWriters=None and for featureWriters=[] (bytes, after replacing the two GDEF-relative numbers of "
         "a lookup - mark filtering set index, mark attachment class - by the glyph sets they denote). hand-written GDEF: a tenth to "
         "a half of the end-to-end files hold a `table GDEF` with any subset of {GlyphClassDef, LigatureCaretByPos, "
-        "LigatureCaretByIndex} (each caret form for one or several glyphs), Attach statements and comments in random order, on "
+        "LigatureCaretByIndex} (each caret form for one or several glyphs), Attach statements and comments in random order, "
+        "written as 1-3 `table GDEF` blocks (statements in any distribution, the first block possibly empty, the blocks adjacent "
+        "or spread over the file), on "
         "fonts with caret_N / vcaret_N anchors on 0-2 glyphs and public.openTypeCategories absent / complete / 'unassigned' only / "
         "invalid only; the model decides from the user's text and the font description what the GDEF writer still has to write, "
         "the types of the statements it added are read off the AST, and in the binary GDEF.LigCaretList / GlyphClassDef must be the "
@@ -171,7 +173,12 @@ def gen_gdef_table(rng, ids, src):
     if not any(it[0] == "l" for it in body):
         leaf("Attach a 1;")
     rng.shuffle(body)
-    return ["B", ids(), "table", "GDEF", False, body]
+    # the GDEF table may be written in several blocks: the statements in any distribution over 1-3 blocks (the first one
+    # possibly empty); generated statements go into the first, what the user wrote counts wherever it stands
+    k = rng.choice([1, 1, 2, 2, 3])
+    cuts = sorted(rng.randrange(len(body) + 1) for _ in range(k - 1))
+    parts = [body[a:b] for a, b in zip([0] + cuts, cuts + [len(body)])]
+    return [["B", ids(), "table", "GDEF", False, part] for part in parts]
 
 
 def gen_file(rng, compile_safe, tags_pool, odd_ws=False, gdef_p=0.06):
@@ -182,6 +189,7 @@ def gen_file(rng, compile_safe, tags_pool, odd_ws=False, gdef_p=0.06):
     for sc, la in ls[:nls]:
         u = ids(); src[str(u)] = "languagesystem %s %s;" % (sc, la); tree.append(["L", u])
     have_gdef = False
+    later_gdef = []
     for _ in range(rng.choice([1, 2, 3, 4, 6, 8])):
         r = rng.random()
         if r < 0.12:
@@ -208,7 +216,8 @@ def gen_file(rng, compile_safe, tags_pool, odd_ws=False, gdef_p=0.06):
             tree.append(["B", u, "lookup", "UL%d" % u, False, body])
         elif r < 0.32 + gdef_p and not have_gdef:
             have_gdef = True
-            tree.append(gen_gdef_table(rng, ids, src))
+            later_gdef = gen_gdef_table(rng, ids, src)
+            tree.append(later_gdef.pop(0))
         else:
             gpos = rng.random() < 0.75
             tag = rng.choice([t for t in tags_pool if (t in GPOS_TAGS) == gpos] or tags_pool)
@@ -220,6 +229,9 @@ def gen_file(rng, compile_safe, tags_pool, odd_ws=False, gdef_p=0.06):
                 pass
             tree.append(["B", u, "feature", tag, rng.random() < 0.12, body])
             shapes.append(shape)
+        if later_gdef and rng.random() < 0.5:
+            tree.append(later_gdef.pop(0))
+    tree.extend(later_gdef)
     return tree, src, shapes
 
 
@@ -457,7 +469,12 @@ def _tags_of_run(tree, steps, ctxs, files, prefix, gseen=()):
             seen = next(gseen, {"items": 0, "new": False, "kinds": []})
             tags.append(prefix + ":gdef:" + ("new" if seen["new"] else "into-user-table" if seen["items"] else "noop"))
             user = sorted({k for u, k in st["kinds"] if k != "other"})
-            if any(s[0] == "B" and s[2] == "table" and s[3] == "GDEF" for s in tree):
+            blocks = [s for s in tree if s[0] == "B" and s[2] == "table" and s[3] == "GDEF"]
+            if len(blocks) >= 2:
+                first = {k for u, k in st["kinds"] if k != "other" and any(it[1] == u for it in blocks[0][5])}
+                tags.append(prefix + ":gdef:blocks:%d" % len(blocks) + (":first-empty" if not blocks[0][5] else "") +
+                            (":kinds-only-in-later-block" if set(user) - first else ""))
+            if blocks:
                 tags.append(prefix + ":gdef:user-table:" + ("+".join(user) or "neither") +
                             (":font-has-carets" if st["carets"] else "") + (":font-has-cats" if st["hasCats"] else ""))
             if ("idx" in user or "pos" in user) and st["carets"]:
@@ -814,16 +831,27 @@ def shrink(case):
             if s[0] == "B":
                 for j in range(len(s[5])):
                     s2 = list(s); s2[5] = s[5][:j] + s[5][j + 1:]
-                    if s[2] != "feature" and not any(it[0] == "l" for it in s2[5]):
+                    if s[2] != "feature" and not any(it[0] == "l" for it in s2[5]) and not (s[2] == "table" and s[3] == "GDEF"):
                         continue
                     c = dict(case); c["file"] = tree[:i] + [s2] + tree[i + 1:]; yield c
 
 
 def classify_failure(res):
+    """the one shape repaired in ufo2ft (kind "fixed" in known_findings.json, therefore always reported as a VIOLATION
+    should it come back): GdefFeatureWriter.setContext scanned only the FIRST `table GDEF` block of the user's file, so a
+    GlyphClassDef / LigatureCaret statement written in a later block was written a second time.  Named only when the
+    driver finds the observed run to be, object for object, the run of that old rule and nothing else of the property
+    fails (`firstBlockScanOnly`), and the file has two or more `table GDEF` blocks."""
+    req = res["req"]
+    if req["op"] != "run" or not (res.get("info") or {}).get("firstBlockScanOnly"):
+        return None
+    blocks = [s for s in req["in"]["file"] if s[0] == "B" and s[2] == "table" and s[3] == "GDEF"]
+    if len(blocks) >= 2 and any(st["type"] == "gdef" for st in req["in"]["steps"]):
+        return {"kind": "gdef-statement-in-later-user-block-ignored"}
     return None
 
 
-LEVEL_TEXT = ("Proved for all inputs (Lean, 126 theorems/lemmas): for any feature file and any sequence of writers, after every writer "
+LEVEL_TEXT = ("Proved for all inputs (Lean, 128 theorems/lemmas): for any feature file and any sequence of writers, after every writer "
               "the file - with generated statements, comments inside feature blocks (the markers are such) and the boundaries of "
               "split-made blocks erased - reads exactly as the user's file (C17_subsequence, no well-formedness needed); for "
               "files whose comment objects are distinct and writers whose feature blocks are distinct, every step satisfies the "
@@ -832,11 +860,12 @@ LEVEL_TEXT = ("Proved for all inputs (Lean, 126 theorems/lemmas): for any featur
               "marker, unmarked predecessors right before it, the rest at the end (C17_place); the marker is the first comment "
               "directly inside a top-level feature block of that tag matching white space + '# Automatic Code' case-sensitively "
               "(C17_collect, C17_case); the writer list is a stable GSUB-first partition with the ellipsis expanded once "
-              "(C17_gsub_first, C17_ellipsis); the GDEF writer generates a GlyphClassDef exactly when the user's `table GDEF` has "
-              "none and the font has categories, and one LigatureCaretByPos per glyph with caret anchors exactly when the user's "
-              "table holds no ligature caret statement of either form (by position or by contour point index), nothing else "
-              "(C17_gdef_gen, C17_gdef_keeps_carets/_classes), appended after the user's statements of that table or in one new "
-              "table at the end of the file (C17_gdef_place, C17_gdef_step; both are part of C17_run).  The model is tied to the code by differential runs at the level of AST objects "
+              "(C17_gsub_first, C17_ellipsis); the GDEF writer generates a GlyphClassDef exactly when none of the user's `table GDEF` "
+              "blocks has one and the font has categories, and one LigatureCaretByPos per glyph with caret anchors exactly when none "
+              "of the user's blocks holds a ligature caret statement of either form (by position or by contour point index), nothing "
+              "else (C17_gdef_gen, C17_gdef_keeps_carets/_classes - without restriction on where in the file the hand-written "
+              "statement stands; the old first-block-only scan is kept as a refuted counterexample), appended after the user's "
+              "statements of the first such block or in one new table at the end of the file (C17_gdef_place, C17_gdef_step; both are part of C17_run).  The model is tied to the code by differential runs at the level of AST objects "
               "(user-defined writers and recording subclasses of the shipped ones) and through compileTTF's debugFeatureFile.")
 LEVEL_NOTE = ("Trusted: Lean kernel + propext/Classical.choice/Quot.sound; the hand-written model's correspondence to "
               "baseFeatureWriter.py / featureCompiler.py is differential (bounded by the generators); GSUB invariance (writers vs "
